@@ -45,7 +45,8 @@ def DEF():
 class Ord(Tok):
     """abstract float that is only compared: a position on an abstract line.  Knots sit at integer ranks (equal knots share a rank),
     a parameter strictly between two knots at a half-integer rank.  Code that touches these values only through comparisons is
-    decided exactly for *every* real assignment with this order type."""
+    decided exactly for *every* real assignment with this order type.  Affine combinations of two ADJACENT distinct values
+    (a + (b - a) / 2) stay inside their interval in every realisation, so they get the corresponding intermediate rank."""
     __slots__ = ('rank',)
 
     def __init__(self, rank):
@@ -55,18 +56,35 @@ class Ord(Tok):
     def __repr__(self):
         return 'Ord(%s)' % self.rank
 
+    def __eq__(self, other):
+        return isinstance(other, Ord) and other.rank == self.rank
+
+    def __ne__(self, other):
+        return not self.__eq__(other)
+
+    def __hash__(self):
+        return hash(('Ord', self.rank))
+
+    def __lt__(self, other):
+        return self.rank < other.rank
+
 
 class Gap(Tok):
-    """difference of two ordered values: only its sign and whether it is zero are known.  A non-zero gap is assumed to exceed every
-    tolerance it is compared with (distinct knots differ by more than the tolerances) - stated as an assumption in the evidence."""
-    __slots__ = ('sign',)
+    """difference of two ordered values: only its sign and whether it is zero are meaningful (mag is the rank difference, used to place
+    affine combinations inside an interval).  A non-zero gap is assumed to exceed every tolerance it is compared with (distinct knots
+    differ by more than the tolerances) - stated as an assumption in the evidence."""
+    __slots__ = ('mag',)
 
-    def __init__(self, sign):
+    def __init__(self, mag):
         Tok.__init__(self, 'DEF')
-        self.sign = sign
+        self.mag = mag
+
+    @property
+    def sign(self):
+        return (self.mag > 0) - (self.mag < 0)
 
     def __repr__(self):
-        return 'Gap(%+d)' % self.sign
+        return 'Gap(%+g)' % self.mag
 
 
 def order_compare(l, r, op):
@@ -263,7 +281,17 @@ class SK(object):
             if x is None or isinstance(x, (list, dict)):
                 raise Violation('SK2', 'placeholder %r used in arithmetic' % (x,), node)
         if isinstance(a, Ord) and isinstance(b, Ord) and op is o.sub:
-            return Gap((a.rank > b.rank) - (a.rank < b.rank))
+            return Gap(a.rank - b.rank)
+        if isinstance(a, Gap) and isinstance(b, (int, float)) and not isinstance(b, bool) and op in (o.truediv, o.mul) and b != 0:
+            return Gap(op(a.mag, float(b)))
+        if isinstance(b, Gap) and isinstance(a, (int, float)) and not isinstance(a, bool) and op is o.mul and a != 0:
+            return Gap(a * b.mag)
+        if isinstance(a, Ord) and isinstance(b, Gap) and op in (o.add, o.sub):
+            return Ord(op(a.rank, b.mag))
+        if isinstance(a, Gap) and isinstance(b, Ord) and op is o.add:
+            return Ord(b.rank + a.mag)
+        if isinstance(a, Gap) and isinstance(b, Gap) and op in (o.add, o.sub):
+            return Gap(op(a.mag, b.mag))
         if isinstance(a, Tok) or isinstance(b, Tok):
             for x in (a, b):
                 if isinstance(x, Tok) and x.kind == 'PH0':
@@ -677,7 +705,7 @@ BUILTINS = {
     'range': Py(lambda sk, n, *a: list(range(*a)), 'range'), 'len': Py(lambda sk, n, x: _len(sk, n, x), 'len'),
     'min': Py(_minmax(min), 'min'), 'max': Py(_minmax(max), 'max'),
     'int': Py(lambda sk, n, x=0: _int(sk, n, x), 'int'), 'float': Py(_float, 'float'),
-    'abs': Py(lambda sk, n, x: (Gap(abs(x.sign)) if isinstance(x, Gap) else DEF()) if isinstance(x, Tok) else abs(x), 'abs'), 'round': Py(_round, 'round'),
+    'abs': Py(lambda sk, n, x: (Gap(abs(x.mag)) if isinstance(x, Gap) else DEF()) if isinstance(x, Tok) else abs(x), 'abs'), 'round': Py(_round, 'round'),
     'zip': Py(lambda sk, n, *a: list(zip(*[sk.iterate(x, n) for x in a])), 'zip'),
     'enumerate': Py(lambda sk, n, x, *s: list(enumerate(sk.iterate(x, n), *s)), 'enumerate'),
     'isinstance': Py(_isinst, 'isinstance'), 'list': Py(lambda sk, n, *a: list(*a), 'list'), 'tuple': Py(lambda sk, n, *a: tuple(*a), 'tuple'),
